@@ -569,6 +569,14 @@ macro_rules! float_kinds {
             let c = s.config();
             format!("{} {}", c.alpha.bits(), c.beta.bits())
         });
+        fk_bits!([const N: usize] Mean<$t, N>, $t, |_s| "-".to_string());
+        fk_bits!([const N: usize] MeanVariance<$t, N>, $t, |_s| "-".to_string());
+        fk_bits!([const N: usize] Delay<$t, N>, $t, |_s| "-".to_string());
+        fk_bits!([] Emv<$t>, $t, |s| s.config().inverse_width.bits());
+        fk_bits!([] Kalman<$t>, $t, |s| {
+            let c = s.config();
+            format!("{} {} {} {} {}", c.r.bits(), c.q.bits(), c.a.bits(), c.b.bits(), c.c.bits())
+        });
     };
 }
 float_kinds!(f64);
@@ -627,6 +635,14 @@ macro_rules! build_float_kind {
                 mid: <$t>::from_val(parse_val(kv_str($kv, "mid"))),
                 post: EmaConfig { inverse_width: <$t>::from_val(parse_val(kv_str($kv, "post"))) },
             })) as Box<dyn Inst>),
+            "mean" => Some(with_n!(kv_n($kv, "N"), N => Box::new(Mean::<$t, N>::default()) as Box<dyn Inst>)),
+            "meanvar" => Some(with_n!(kv_n($kv, "N"), N => Box::new(MeanVariance::<$t, N>::default()) as Box<dyn Inst>)),
+            "delay" => Some(with_n!(kv_n($kv, "N"), N => Box::new(Delay::<$t, N>::default()) as Box<dyn Inst>)),
+            "emeanvar" => Some(Box::new(Emv::<$t>::with_config(EmvConfig { inverse_width: <$t>::from_val(parse_val(kv_str($kv, "w"))) })) as Box<dyn Inst>),
+            "kalman" => {
+                let g = |k: &str| <$t>::from_val(parse_val(kv_str($kv, k)));
+                Some(Box::new(Kalman::<$t>::with_config(KalmanConfig { r: g("r"), q: g("q"), a: g("a"), b: g("b"), c: g("c") })) as Box<dyn Inst>)
+            }
             "alphabeta" => Some(Box::new(AlphaBeta::<$t>::with_config(AbConfig {
                 alpha: <$t>::from_val(parse_val(kv_str($kv, "alpha"))),
                 beta: <$t>::from_val(parse_val(kv_str($kv, "beta"))),
@@ -927,6 +943,18 @@ pub fn inject(kind: &str, kv: &KV) -> Box<dyn Inst> {
                 weight: Tracked::new(kv_q(kv, "weight")),
             };
             Box::new(Mean::<Tracked, N>::from_guts(st)) as Box<dyn Inst>
+        }),
+        "max" if kv.get("T").map(|s| s.as_str()) == Some("tracked") => with_n!(kv_n(kv, "N"), N => {
+            let mut taps: CircularBuffer<N, (Tracked, usize)> = CircularBuffer::default();
+            for (v, t) in parse_taps(kv_str(kv, "taps")) { taps.push_back((Tracked::new(v), t)); }
+            let st = signalo_filters::bounds::max::State { time: kv_n(kv, "time"), taps };
+            Box::new(Max::<Tracked, N>::from_guts(st)) as Box<dyn Inst>
+        }),
+        "min" if kv.get("T").map(|s| s.as_str()) == Some("tracked") => with_n!(kv_n(kv, "N"), N => {
+            let mut taps: CircularBuffer<N, (Tracked, usize)> = CircularBuffer::default();
+            for (v, t) in parse_taps(kv_str(kv, "taps")) { taps.push_back((Tracked::new(v), t)); }
+            let st = signalo_filters::bounds::min::State { time: kv_n(kv, "time"), taps };
+            Box::new(Min::<Tracked, N>::from_guts(st)) as Box<dyn Inst>
         }),
         "max" => with_n!(kv_n(kv, "N"), N => {
             let mut taps: CircularBuffer<N, (Q, usize)> = CircularBuffer::default();
